@@ -1,4 +1,4 @@
-/* Farch1 (C15): celt_fir_sse4_1 does not match the portable celt_fir_c at the negative saturation rail.
+/* F15 (C15): celt_fir_sse4_1 does not match the portable celt_fir_c at the negative saturation rail.
    celt_fir_c rounds and saturates with SROUND16 -> [-32767, 32767]; celt_fir_sse4_1 saturates with _mm_packs_epi32 (vector
    part) and SATURATE16 (tail) -> [-32768, 32767].  Fixed-point build, arch levels 3 and 4 (CELT_FIR_IMPL).  The codec reaches
    it in the decoder's packet-loss concealment (celt_decode_lost: LPC analysis filter over the excitation) when the decoded
@@ -6,7 +6,7 @@
    Build (fixed-point library built with -DOPUS_FIXED_POINT=ON in $B from source tree $S):
      gcc -O1 -DHAVE_CONFIG_H -DFIXED_POINT -DOPUS_BUILD -DOPUS_HAVE_RTCD -DOPUS_X86_MAY_HAVE_SSE -DOPUS_X86_MAY_HAVE_SSE2 \
          -DOPUS_X86_MAY_HAVE_SSE4_1 -DOPUS_X86_MAY_HAVE_AVX2 -DOPUS_X86_PRESUME_SSE -DOPUS_X86_PRESUME_SSE2 -DVAR_ARRAYS \
-         -I$S/include -I$S/celt -I$S -I$B Farch1_c15_celt_fir_sat.c $B/libopus.a -lm -o farch1 && ./farch1
+         -I$S/include -I$S/celt -I$S -I$B F15_c15_celt_fir_sat.c $B/libopus.a -lm -o f15 && ./f15
    Prints the first differing sample and exits 1 on the pinned tree; exits 0 once both kernels saturate alike. */
 #include <stdio.h>
 #include <string.h>
